@@ -40,6 +40,10 @@ NEEDS = {
  "C13c": "a reverse-complemented slice with start != 0 (get_kmer / first_kmer / last_kmer / iter_kmers)",
  "C14c": "overwriting an old C or T with A or G through set_mut",
  "C16c": "lower-case c or g through from_dna_only_string",
+ "C01a": "a node with k-mers to the left of its seed and payloads that are not all equal (the seed's payload is folded once per left step instead)",
+ "C01b": "a reduction that treats its two arguments differently (invisible to + or max): right-walk steps swap path object and k-mer object",
+ "C01c": "compress_kmers_no_exts (never called by the test suite): right extensions derived from the LEFT neighbours - panics with `unreachable` on forked input, splits linear contigs",
+ "C02c": "a join predicate that is reflexive but not constant (colour equality): join_test(kmer_data, kmer_data) always accepts",
 }
 def detection(sid):
     out = []
